@@ -99,3 +99,43 @@ theorem len_ge_of_bytes (s : Slice) (bs tail : Bytes) (h : s.bytes = bs ++ tail)
 
 end Slice
 end OFV.Go
+
+namespace OFV.RT
+open OFV OFV.Go OFV.Model
+
+theorem n8_toNat (c : Nat) (h : c < 256) : (n8 c).toNat = c := by
+  simp [n8, UInt8.toNat_ofNat', Nat.mod_eq_of_lt h]
+theorem n16_toNat (c : Nat) (h : c < 65536) : (n16 c).toNat = c := by
+  simp [n16, UInt16.toNat_ofNat', Nat.mod_eq_of_lt h]
+theorem n32_toNat (c : Nat) (h : c < 4294967296) : (n32 c).toNat = c := by
+  simp [n32, UInt32.toNat_ofNat', Nat.mod_eq_of_lt h]
+theorem n64_toNat (c : Nat) (h : c < 18446744073709551616) : (n64 c).toNat = c := by
+  simp [n64, UInt64.toNat_ofNat', Nat.mod_eq_of_lt h]
+
+theorem u8_n8 (x : Nat) (h : x < 256) : V.u8 (n8 x) = .num x := by
+  simp [V.u8, n8_toNat x h]
+theorem u16_n16 (x : Nat) (h : x < 65536) : V.u16 (n16 x) = .num x := by
+  simp [V.u16, n16_toNat x h]
+theorem u32_n32 (x : Nat) (h : x < 4294967296) : V.u32 (n32 x) = .num x := by
+  simp [V.u32, n32_toNat x h]
+theorem u64_n64 (x : Nat) (h : x < 18446744073709551616) : V.u64 (n64 x) = .num x := by
+  simp [V.u64, n64_toNat x h]
+
+theorem rd16_be16' (v : UInt16) : rd16 (be16 v) = some v := by
+  have := rd16_be16 v []; simpa using this
+theorem rd32_be32' (v : UInt32) : rd32 (be32 v) = some v := by
+  have := rd32_be32 v []; simpa using this
+theorem rd64_be64' (v : UInt64) : rd64 (be64 v) = some v := by
+  have := rd64_be64 v []; simpa using this
+theorem take_be16 (v : UInt16) (tail : Bytes) : (be16 v ++ tail).take 2 = be16 v := rfl
+theorem take_be32 (v : UInt32) (tail : Bytes) : (be32 v ++ tail).take 4 = be32 v := rfl
+theorem take_be64 (v : UInt64) (tail : Bytes) : (be64 v ++ tail).take 8 = be64 v := rfl
+
+theorem makeCopy_exact (n : Nat) (b tail : Bytes) (h : b.length = n) : makeCopy n (b ++ tail) = b := by
+  simp [makeCopy, copyInto, h]
+
+theorem makeCopy_self (n : Nat) (b : Bytes) (h : b.length = n) : makeCopy n b = b := by
+  have := makeCopy_exact n b [] h
+  simpa using this
+
+end OFV.RT
